@@ -141,3 +141,14 @@ pub proof fn lemma_count_terms_one(s: Seq<u8>, t: u8, i: int)
 {
     assert(count_terms(s, t, i, i) == 0);
 }
+
+/// strip(line, lt): `line` without a trailing terminator (exactly `lt`'s byte sequence)
+pub open spec fn strip(line: Seq<u8>, lt: LineTerminator) -> Seq<u8> {
+    let t = lt.seq_view();
+    if line.len() >= t.len() && line.subrange(line.len() - t.len(), line.len() as int) == t {
+        line.subrange(0, line.len() - t.len())
+    } else {
+        line
+    }
+}
+
